@@ -14,6 +14,8 @@ ATOMS = [
     "size not between 5 and 50", "name not like 'a%'",
     # bare boolean columns and functions (the documented shorthand for `= true`)
     "is_dir", "is_file", "is_hidden", "contains('xxxxx')",
+    # pattern atoms of DIFFERENT kinds that share one literal text (each operator reads the text in its own way)
+    "name like 'ab'", "name =~ 'ab'", "name = 'a?'", "name like 'a?'", "name =~ 'a?'", "name like '%.txt'", "name = '%.txt'", "name =~ '%.txt'", "name = '*.txt'", "name like '*.txt'",
     # date atoms: a literal coarser than a second denotes an interval, and entries lie before, inside (first second, middle, last second) and after it
     "modified > '2024-03-10'", "modified <= '2024-03-10'", "modified = '2024-03-10'", "modified >= '2024-03-10 12'", "modified < '2024-03-10 12:00'", "modified != '2024-03-10 12:00:00'",
 ]
@@ -179,6 +181,11 @@ def run(ctx):
     for j, tr in enumerate(triples):
         if j % 2 == 0 and not any(a in BARE for a in tr):
             tr[rng.randrange(3)] = rng.choice([a for a in BARE if a in truth_of])
+    # one exhaustive triple consists of atoms that share a literal text across operator kinds
+    SAME = [["name like 'ab'", "name =~ 'ab'", "name = 'a?'"], ["name = 'a?'", "name like 'a?'", "name =~ 'a?'"], ["name like '%.txt'", "name =~ '%.txt'", "name = '*.txt'"], ["name = '*.txt'", "name like '*.txt'", "name like '%.txt'"]]
+    SAME = [s_ for s_ in SAME if all(a in truth_of for a in s_)]
+    if SAME and len(triples) >= 3:
+        triples[2] = list(rng.choice(SAME))
     DATE = [a for a in ATOMS if a.startswith("modified") and a in truth_of]
     for j, tr in enumerate(triples):
         if j % 2 == 1 and DATE and not any(a in DATE for a in tr):
@@ -250,6 +257,6 @@ def run(ctx):
         ctx.notes.append("parser correspondence unavailable (%s)" % str(e)[:200])
     ctx.coverage.update(
         evaluations=len(jobs) + len(ATOMS) + n_corr, distinct_nontrivial=len(st["distinct"]), traces_validated_against_impl=st["agreed"],
-        rule="tree of 42 files incl. hidden ones (sizes around the literals: v-1, v, v+1; names around the patterns) realising the truth assignments of %d atoms of every operator kind (incl. between / not between / not like, date columns against literals of day / hour / minute precision with entries inside the literal's interval, boolean with and without `= true`, bare boolean function, regex, glob, function); EVERY formula shape up to %d nodes over three atoms (x several atom triples) plus random formulas to depth 5, rendered with minimal or redundant brackets in both styles and prefix `not`; the documented complements between atoms (between / not between with bounds that occur in the tree, like / not like, each comparison and its opposite) are checked directly; every formula is also parsed by the real lexer+parser and by model.Parser (identical syntax trees required); the formula's result set must equal the Boolean combination (and = intersection, or = union, not = complement) of the atoms' own result sets. non-trivial = >= 3 nodes and a proper non-empty result" % (len(ATOMS), bound),
+        rule="tree of 42 files incl. hidden ones (sizes around the literals: v-1, v, v+1; names around the patterns) realising the truth assignments of %d atoms of every operator kind (incl. between / not between / not like, date columns against literals of day / hour / minute precision with entries inside the literal's interval, boolean with and without `= true`, bare boolean function, regex, glob, function, pattern atoms of different kinds over one literal text); EVERY formula shape up to %d nodes over three atoms (x several atom triples) plus random formulas to depth 5, rendered with minimal or redundant brackets in both styles and prefix `not`; the documented complements between atoms (between / not between with bounds that occur in the tree, like / not like, each comparison and its opposite) are checked directly; every formula is also parsed by the real lexer+parser and by model.Parser (identical syntax trees required); the formula's result set must equal the Boolean combination (and = intersection, or = union, not = complement) of the atoms' own result sets. non-trivial = >= 3 nodes and a proper non-empty result" % (len(ATOMS), bound),
         samples=st["samples"], distribution=dict(st["hist"]), exhaustive_up_to_size=bound)
     return ctx.finish(trusted=["atom truth values are taken from the implementation's own single-atom runs (their meaning is C02's subject)"])
